@@ -1292,6 +1292,7 @@ class RTCSctpTransport(AsyncIOEventEmitter):
         self._update_advanced_peer_ack_point()
         await self._data_channel_flush()
         await self._transmit()
+        await self._transmit_reconfig()
 
     async def _receive_reconfig_param(
         self,
@@ -1646,8 +1647,19 @@ class RTCSctpTransport(AsyncIOEventEmitter):
             and self._reconfig_queue
             and not self._reconfig_request
         ):
-            streams = self._reconfig_queue[0:RECONFIG_MAX_STREAMS]
-            self._reconfig_queue = self._reconfig_queue[RECONFIG_MAX_STREAMS:]
+            # only reset streams once all their user data has been acknowledged,
+            # otherwise data still in flight arrives after the peer has reset
+            # its end of the stream
+            busy = set(chunk.stream_id for chunk in self._sent_queue)
+            busy.update(chunk.stream_id for chunk in self._outbound_queue)
+            busy.update(channel.id for channel, _, _ in self._data_channel_queue)
+            streams = [x for x in self._reconfig_queue if x not in busy]
+            streams = streams[0:RECONFIG_MAX_STREAMS]
+            if not streams:
+                return
+            self._reconfig_queue = [
+                x for x in self._reconfig_queue if x not in streams
+            ]
             param = StreamResetOutgoingParam(
                 request_sequence=self._reconfig_request_seq,
                 response_sequence=self._reconfig_response_seq,
@@ -1721,8 +1733,7 @@ class RTCSctpTransport(AsyncIOEventEmitter):
             ):
                 # queue a stream reset
                 self._reconfig_queue.append(channel.id)
-                if len(self._reconfig_queue) == 1:
-                    asyncio.ensure_future(self._transmit_reconfig())
+                asyncio.ensure_future(self._transmit_reconfig())
             else:
                 # remove any queued messages for the datachannel
                 new_queue: DataChannelQueue = deque()
